@@ -185,6 +185,13 @@ def replay_scenario(ctx: Ctx, scn: dict, fn: str, rng: random.Random, episodes: 
         recv, gradv, excv, infov = runner(scn, rng, **kw)
         ctx.evaluations += 1
         ctx.count(f"variant_{vname}")
+        if excv is not None and k != 0:
+            # C07 is about chunk sizes, not about whether the variant is supported at all: if the same call
+            # fails with parallel_chunk_size=None as well, the chunk size is not what broke it
+            _, _, exc_ref, _ = runner(scn | {"k": 0}, rng, **kw)
+            if exc_ref is not None:
+                ctx.count(f"variant_{vname}_unsupported_for_every_chunk_size")
+                continue
         if excv is not None:
             ctx.violation(tag + f":{vname}:raised", f"{fn} ({vname} variant) raised {type(excv).__name__} for a valid chunk size "
                           f"(m={m}, k={k or None}): {str(excv)[:160]}", {"kind": "scenario", "fn": fn, "scenario": scn, "variant": vname})
